@@ -34,7 +34,7 @@ impl Property for C16 {
     }
     fn budget(tier: Tier) -> u64 {
         match tier {
-            Tier::Quick => 80_000,
+            Tier::Quick => 150_000,
             Tier::Thorough => 1_000_000,
         }
     }
